@@ -187,7 +187,13 @@ func reflectValue(rv reflect.Value, val any, opt *Options) (v any) {
 	case reflect.Slice, reflect.Array:
 		v = reflectArray(rv, opt)
 	case reflect.Struct:
-		v = reflectStruct(rv, val, opt)
+		if t, ok := val.(time.Time); ok {
+			// A time reached through a pointer. It is a time, not a struct
+			// without fields.
+			v = opt.DecomposeTime(t)
+		} else {
+			v = reflectStruct(rv, val, opt)
+		}
 	case reflect.String:
 		v = rv.String()
 	case reflect.Bool:
